@@ -158,6 +158,10 @@ type Run struct {
 	Rule        string
 	Exhaustive  bool
 	Assumptions []string
+
+	// Variant is non-empty inside a fresh-process variant child (see
+	// RunVariantChild); drivers use it to avoid spawning grandchildren.
+	Variant string
 }
 
 type ntShard struct {
@@ -452,4 +456,54 @@ func ParallelFor(n, w int, f func(i int)) {
 		}()
 	}
 	wg.Wait()
+}
+
+// ---------------------------------------------------------------------------
+// running part of a property in a fresh child process (process-level state such
+// as lazily built tables can only be re-exercised in a new process)
+
+type childResult struct {
+	Evals      int64          `json:"evals"`
+	NT         int64          `json:"nt"`
+	Violations []*Violation   `json:"violations"`
+	Incon      []string       `json:"inconclusive"`
+	Obs        map[string]any `json:"obs"`
+}
+
+// EmitChildResult is called by a child body: it serialises what the child's
+// Run collected to stdout for the parent to merge.
+func (r *Run) EmitChildResult() {
+	res := childResult{Evals: r.Evals(), NT: r.NTTotal(), Incon: r.inconclusive, Obs: r.obs}
+	for _, sig := range r.violOrder {
+		v := *r.viol[sig]
+		res.Violations = append(res.Violations, &v)
+	}
+	b, _ := json.Marshal(res)
+	fmt.Printf("CHILDRESULT %s\n", b)
+}
+
+// MergeChildOutput merges a child's CHILDRESULT line into r. variant labels
+// the child's violations. It returns false when no result line was found.
+func (r *Run) MergeChildOutput(out []byte, variant string, countNT bool) bool {
+	for _, line := range strings.Split(string(out), "\n") {
+		if !strings.HasPrefix(line, "CHILDRESULT ") {
+			continue
+		}
+		var res childResult
+		if err := json.Unmarshal([]byte(line[len("CHILDRESULT "):]), &res); err != nil {
+			return false
+		}
+		r.AddEvals(res.Evals)
+		if countNT {
+			r.NTCount(res.NT)
+		}
+		for _, v := range res.Violations {
+			r.Violate(v.Stage, v.Sig+" ["+variant+"]", v.Msg+"\n(observed in a fresh process, variant "+variant+")", map[string]any{"variant": variant, "case": v.Case})
+		}
+		for _, s := range res.Incon {
+			r.Inconclusive(variant + ": " + s)
+		}
+		return true
+	}
+	return false
 }
